@@ -2,6 +2,7 @@
 # usage: tools/seed_eval.sh <seed-dir-name> <PID>
 # Applies the seed to a scratch worktree of /repo's HEAD and runs the check against that tree
 # (VERIF_REPO), with evidence redirected to a scratch directory; /repo itself is never touched.
+# BASE=<rev> uses another revision of /repo than HEAD as the base.
 # INPLACE=1 applies the patch to /repo's working tree instead (git apply / git checkout -- .).
 n=$1; pid=$2
 if [ -n "$INPLACE" ]; then
@@ -13,7 +14,7 @@ if [ -n "$INPLACE" ]; then
   exit 0
 fi
 wt=$(mktemp -d /tmp/seedeval.XXXXXX); ev=$(mktemp -d /tmp/seedev.XXXXXX)
-git -C /repo worktree add --detach -q $wt HEAD || exit 9
+git -C /repo worktree add --detach -q $wt ${BASE:-HEAD} || exit 9
 ( cd $wt && git apply /verif/seeded/$n/patch.diff ) || { echo "PATCH DOES NOT APPLY"; git -C /repo worktree remove --force $wt; rm -rf $ev; exit 3; }
 cd /verif && VERIF_REPO=$wt VERIF_EVIDENCE_DIR=$ev timeout 1500 bin/check $pid --tier ${TIER:-quick} 2>&1 | grep -v "^  \[" | cut -c1-160 | sed "s#$ev#<scratch-evidence>#" | tail -${LINES_MAX:-4}
 git -C /repo worktree remove --force $wt; rm -rf $ev $wt
